@@ -325,6 +325,11 @@ func forEachReturnValue(fn *ssa.Function, idx int, f func(v ssa.Value, at ssa.In
 		r := ret.Results[idx]
 		if u, ok := r.(*ssa.UnOp); ok && u.Op == token.MUL {
 			if a, ok := u.X.(*ssa.Alloc); ok {
+				// a local kept in memory (captured by a function literal): the value it holds at this return
+				if v := cellValueAt(a, u); v != nil {
+					f(v, ret)
+					return
+				}
 				cells[a] = true
 				return
 			}
